@@ -25,15 +25,22 @@ PLAN = {
         trusted_base=COMMON_TRUST + [NUMPY_TRUST], assumptions=[MATH_ARITH, 'coordinates finite', T1, RTC_NOTE],
         explanation="proved: triangle_orientation, segments_intersect_1d, segments_intersect (under its call-site "
                     "precondition), point_intersects_polygon (= winding number), total_bounds_interleaved, "
-                    "multipoints_intersect_bounds; the line / polygon drivers and all array wrappers are covered by the "
-                    "run-time checked contract against the exact oracle (bounded)",
+                    "multipoints_intersect_bounds; the line / multiline drivers against the point-set predicate LINE_MEETS "
+                    "(a vertex in the box or a segment meeting it) and the polygon / multipolygon drivers against POLY_MEETS "
+                    "(the boundary meets the box or a box corner has non-zero winding number; valid polygons, boxes of "
+                    "positive width and height), incl. the bounding-box reject and the slab shortcut (discrete intermediate "
+                    "value lemma, winding number of closed rings beside a point); the five list-array wrappers and "
+                    "PointArray.intersects_bounds (row k = the verdict for exactly element inds[k], any array offset); "
+                    "scalar forms and the end-to-end answer against the exact oracle by the run-time checked contract (bounded)",
     ),
     'C02': dict(
         modules=['c14_measures', 'c02_point', 'glue_fixed', 'c15_orient', 'c16_isnull', 'c13_bounds', 'c01_box'], level='other', stages=[RTC],
         trusted_base=COMMON_TRUST + [NUMPY_TRUST], assumptions=[MATH_ARITH, 'coordinates finite', T1, RTC_NOTE],
         explanation="proved: segment_intersects_point, point_intersects_polygon, _perform_intersects_polygon, "
-                    "_perform_intersects_multipoint, most of _perform_intersects_line (two invariants by stand-in); Point / "
-                    "PointArray wrappers (inds handling, missing points) by the run-time checked contract (bounded)",
+                    "_perform_intersects_multipoint, most of _perform_intersects_line (four invariants by stand-in); "
+                    "PointArray.intersects for polygon-like and multipoint shapes with its helpers (inds handling, a missing "
+                    "point never intersects); scalar Point forms, line shapes and the end-to-end answer against the exact "
+                    "oracle by the run-time checked contract (bounded)",
     ),
     'C03': dict(
         modules=['c03_rtree'], level='other', stages=[RTC],
@@ -73,18 +80,20 @@ PLAN = {
                      "row-wise applications of the scalar functions, which they see through a math-mode view "
                      "(uninterpreted ENC_n / DEC_n,j with their ranges) of the bit-vector contracts"],
         explanation="per configuration (p,n) all loops are unrolled over the operand width, so each configuration is "
-                    "decided for all inputs; quick tier runs a subset of configurations, thorough all 113",
-        crosscheck={'quick': 4, 'thorough': 20},
+                    "decided for all inputs; quick tier runs a subset of configurations, thorough all 113; the vectorised "
+                    "entry points are proved to apply the scalar functions row by row (any length, any integer coordinate "
+                    "dtype, result int64, caller's array unmodified)",
     ),
     'C08': dict(
         modules=['c13_bounds', 'c14_measures', 'c07_vector', 'c08_hilbert_distance', 'glue_rep', 'glue_misc'], level='other', stages=[RTC],
         trusted_base=COMMON_TRUST + [NUMPY_TRUST],
         assumptions=[MATH_ARITH, "distances_from_coordinates is used through an assumed math-mode view of the "
                      "bit-vector function verified under C07", RTC_NOTE],
-        explanation="proved: _data2coord, _distances_from_bounds, and GeometryArray.hilbert_distance on list arrays for "
-                    "total_bounds given as None / tuple / list / ndarray (value = cell of the bbox centre, widening, argument "
-                    "unmodified), relative to the pyarrow representation contracts; fixed (point) arrays and the Series "
-                    "wrapper by the run-time checked contract (bounded)",
+        explanation="proved: _data2coord (cell = clamp(trunc(scaled)), with the float -> int64 cast modelled faithfully: "
+                    "out-of-range values are unconstrained), distances_from_coordinates (row-wise), _distances_from_bounds, and "
+                    "GeometryArray.hilbert_distance on list arrays for total_bounds given as None / tuple / list / ndarray "
+                    "(value = cell of the bbox centre, widening, argument unmodified), relative to the pyarrow representation "
+                    "contracts; fixed (point) arrays and the Series wrapper by the run-time checked contract (bounded)",
     ),
     'C09': dict(
         modules=['glue_dask'], level='other', stages=[RTC],
@@ -103,10 +112,11 @@ PLAN = {
         trusted_base=COMMON_TRUST, assumptions=[MATH_ARITH, RTC_NOTE],
         explanation="proved: the three bounds kernels for all lengths and all float values incl. NaN/inf (declarative reading "
                     "of the spec by inductive lemmas), the buffer layer of list arrays (buffer_values, buffer_offsets, "
-                    "flat_values, buffer_outer_offsets, for 1-3 offset levels and any array offset) and "
+                    "flat_values, buffer_outer_offsets, for 1-3 offset levels and any array offset), "
                     "GeometryListArray.bounds / total_bounds / total_bounds_x / total_bounds_y relative to the pyarrow "
-                    "representation contracts; fixed arrays, series / dask / sindex wrappers by the run-time checked "
-                    "contract (bounded)",
+                    "representation contracts, and GeometryFixedArray.flat_values / .bounds (row i = the finite coordinates of "
+                    "point i, NaN row iff missing); fixed-array total_bounds, series / dask / parquet / sindex wrappers by the "
+                    "run-time checked contract (bounded)",
     ),
     'C14': dict(
         modules=['c13_bounds', 'c14_measures', 'c15_orient', 'c16_isnull', 'c02_point', 'c01_box', 'c01_lines', 'c01_polys', 'glue_rep', 'glue_polygon', 'glue_wrappers'], level='other', stages=[RTC],
@@ -114,7 +124,9 @@ PLAN = {
         assumptions=[MATH_ARITH, "sqrt is an uninterpreted function: 'exact' means equal as real expressions; IEEE "
                      "rounding of the sums is not verified", "area contracts are for finite coordinates", RTC_NOTE],
         explanation="compute_line_length, compute_area and the three prange map kernels (incl. iteration independence) are "
-                    "proved; scalar / array wrappers and boundary by the run-time checked contract (bounded)",
+                    "proved, and the array wrappers LineArray / MultiLineArray / PolygonArray / MultiPolygonArray .length and "
+                    "PolygonArray / MultiPolygonArray .area (row i = measure of element i, NaN iff missing, any array offset); "
+                    "scalar forms, boundary and point / multipoint arrays by the run-time checked contract (bounded)",
     ),
     'C15': dict(
         modules=['c13_bounds', 'c14_measures', 'c15_orient', 'c16_isnull', 'glue_rep', 'glue_polygon'], level='other', stages=[RTC],
@@ -129,9 +141,11 @@ PLAN = {
     'C16': dict(
         modules=['c16_isnull', 'c13_bounds', 'c14_measures', 'c15_orient', 'c02_point', 'c01_box', 'c01_lines', 'c01_polys', 'glue_rep', 'glue_polygon', 'glue_wrappers', 'glue_take', 'glue_fixed'], level='other', stages=[RTC],
         trusted_base=COMMON_TRUST, assumptions=[RTC_NOTE],
-        explanation="_perform_extract_isnull_bytemap proved (bit (offset+i) of the validity bitmap, for every offset); "
-                    "__getitem__/take/concat/copy/pickle and view-determinacy of every derived quantity by the run-time "
-                    "checked contract over random derivation histories (bounded)",
+        explanation="proved: _perform_extract_isnull_bytemap (bit (offset+i) of the validity bitmap, for every offset), the "
+                    "buffer layer, GeometryArray.take (index validation / normalisation, error cases), the length / area / "
+                    "intersects_bounds / bounds wrappers over the abstract view (results depend on element values only, for "
+                    "every array offset); __getitem__ / concat / copy / pickle / iteration and view-determinacy end to end by "
+                    "the run-time checked contract over random derivation histories (bounded)",
     ),
     'C17': dict(
         modules=['c13_bounds', 'c14_measures', 'c15_orient', 'c16_isnull', 'c02_point', 'c01_box', 'c01_lines', 'c01_polys', 'glue_rep', 'glue_polygon', 'glue_wrappers', 'glue_fixed'], level='other', stages=[RTC],
